@@ -248,9 +248,72 @@ def run(repo):
                                  repo.where(fi, n), P))
     if n_fw < 3:
         raise AnalysisError('only %d forwardings of the sparray memo found' % n_fw)
+    # (e) element-wise atoms keep argument and value aligned.  `square(x) + other` broadcasts the value part
+    #     (affine_out + other); for the element-wise letter S the argument must be broadcast the same way on
+    #     every path (affine_in.reshape(value shape) + 0*other), whatever the sizes -- equal size is not equal shape
+    #     (a (3,1) square plus a (3,) operand has nine entries); otherwise the lowering builds one cone per entry
+    #     of the argument and the other entries of the value are never constrained.
+    _elementwise_broadcast(repo, res)
     return res
 
 
 def _mentions_const(e, field):
     t = ntext(e)
     return ('.' + field) in t or 'other' in t
+
+
+def _elementwise_broadcast(repo, res):
+    from rsx.flow import holds, clauses, clauses_of, MustFlow as _MF
+    from .common import body_stmts
+    RB = ('cl', frozenset({('#rebroadcast', True)}))
+    n_sites = 0
+    for fq in ('lp.Convex.__add__',):
+        fi = repo.func(fq)
+        res.functions.add(fq)
+        # the broadcasting statement: <in> = (<in>.reshape(self.affine_out.shape) + 0 * other)   (any operand order)
+        def is_rebroadcast(node):
+            if not (isinstance(node, ast.Assign) and len(node.targets) == 1 and isinstance(node.targets[0], ast.Name)):
+                return False
+            t = ntext(node.value)
+            return 'reshape(self.affine_out.shape)' in t and ('0 * other' in t or 'other * 0' in t or
+                                                              'np.zeros_like(other)' in t)
+        if not any(is_rebroadcast(n) for n in walk_no_nested(fi.node)):
+            raise AnalysisError('%s: the statement broadcasting affine_in against the added operand '
+                                '(affine_in.reshape(self.affine_out.shape) + 0*other) was not found' % fq)
+
+        class _F(_MF):
+            def __init__(self):
+                super().__init__()
+                self.sites = []
+
+            def refine(self, test, branch, state):
+                return state
+
+            def transfer(self, node, state):
+                if is_rebroadcast(node):
+                    return state | {RB}          # a clause, so that it survives the join with the `not S` arm
+                return state
+
+            def visit(self, node, state):
+                for c in ast.walk(node):
+                    if isinstance(c, ast.Call) and isinstance(c.func, ast.Name) and c.func.id == 'Convex':
+                        allowed = {('#rebroadcast', True)}
+                        for txt in ("self.xtype in 'S'", "self.xtype == 'S'", "self.xtype in ('S',)", "self.xtype in ['S']"):
+                            for cl_ in clauses(ast.parse(txt, mode='eval').body, False):
+                                allowed |= set(cl_)
+                        okk = any(c_ and set(c_) <= allowed for c_ in clauses_of(state))
+                        self.sites.append((c, okk))
+        fl = _F()
+        fl.run(body_stmts(fi))
+        for c, okk in fl.sites:
+            n_sites += 1
+            res.inst({'function': fq, 'result': ntext(c)[:50], 'argument_broadcast_for_S_on_every_path': okk}, okk)
+            if not okk:
+                res.fail(Finding(RULE, fq, 'element-wise atom: argument not broadcast on every path',
+                                 '%s builds `%s` on a path where the atom may be the element-wise square (S) and the '
+                                 'argument has not been broadcast against the added operand: when the operand has the '
+                                 'same number of entries but another shape the value has more entries than the argument '
+                                 'and the lowering constrains only some of them' % (fq, ntext(c)[:40]),
+                                 repo.where(fi, c), {'props': ['C06', 'C05']}))
+    if n_sites < 1:
+        raise AnalysisError('R24(e): no Convex(..) construction found in Convex.__add__')
